@@ -135,8 +135,10 @@ type World struct {
 	sched scheduler
 	t0    time.Time
 
-	lastTOTP   map[int]string // account -> digits last submitted as a genuine TOTP code
-	mwMu       sync.Mutex
+	expireOn   bool // the expire module is set up and its middleware installed (see Config.ExpireLate)
+	restarts   int
+	appHookRan atomic.Int64                               // the application's logout hook ran (atomic: tasks of a concurrent run call it)
+	lastTOTP   map[int]string                             // account -> digits last submitted as a genuine TOTP code
 	mwCache    map[string]func(http.Handler) http.Handler // guarded probe routes, mounted once per server process
 	lockMod    *lock.Lock
 	confirmMod *confirm.Confirm
@@ -500,16 +502,43 @@ func NewWorld(t *testing.T, cfg Config, seed uint64, concurrent bool) *World {
 
 // restart (re)builds the server side: fresh authboss instances over the
 // surviving user stores.
+// mountProbes builds the guards of every probe route, as an application does
+// when it starts (the map is read-only while requests are served).
+func (w *World) mountProbes() {
+	ab := w.AB
+	m := map[string]func(http.Handler) http.Handler{}
+	for reqs := 0; reqs < 4; reqs++ {
+		for mp := 0; mp < 2; mp++ {
+			for mode := 0; mode < 3; mode++ {
+				m[fmt.Sprintf("mw/%d/%d/%d", reqs, mode, mp)] = authboss.MountedMiddleware2(ab, mp == 1, authboss.MWRequirements(reqs), authboss.MWRespondOnFailure(mode))
+			}
+			for redirect := 0; redirect < 2; redirect++ {
+				full, twofa := reqs&1 != 0, reqs&2 != 0
+				if mp == 1 {
+					m[fmt.Sprintf("legacy/%d/%d/%d", reqs, redirect, mp)] = authboss.MountedMiddleware(ab, true, redirect == 1, full, twofa)
+				} else {
+					m[fmt.Sprintf("legacy/%d/%d/%d", reqs, redirect, mp)] = authboss.Middleware(ab, redirect == 1, full, twofa)
+				}
+			}
+		}
+	}
+	none := authboss.Middleware2(ab, authboss.RequireNone, authboss.RespondNotFound)
+	lockMW, confirmMW := lock.Middleware(ab), confirm.Middleware(ab)
+	m["lock"] = func(h http.Handler) http.Handler { return none(lockMW(h)) }
+	m["confirm"] = func(h http.Handler) http.Handler { return none(confirmMW(h)) }
+	w.mwCache = m
+}
+
 func (w *World) restart() {
-	w.mwMu.Lock()
-	w.mwCache = map[string]func(http.Handler) http.Handler{}
-	w.mwMu.Unlock()
+	w.expireOn = w.Cfg.hasSetup("expire") && (!w.Cfg.ExpireLate || w.restarts > 0)
+	w.restarts++
 	w.AB = w.newSite(false)
 	if w.Cfg.SecondSite {
 		w.AB2 = w.newSite(true)
 	}
 	w.lockMod = &lock.Lock{Authboss: w.AB}
 	w.confirmMod = &confirm.Confirm{Authboss: w.AB}
+	w.mountProbes()
 	w.Handler = w.buildHandler()
 }
 
@@ -610,7 +639,7 @@ func (w *World) newSite(second bool) *authboss.Authboss {
 
 	if cfg.AppLogoutHook && !second {
 		ab.Events.After(authboss.EventLogout, func(rw http.ResponseWriter, r *http.Request, handled bool) (bool, error) {
-			w.Stats.Reach["app_logout_hook_ran"]++
+			w.appHookRan.Add(1)
 			http.Redirect(rw, r, "/sso/end-session", http.StatusFound)
 			return true, nil
 		})
@@ -632,6 +661,9 @@ func (w *World) newSite(second bool) *authboss.Authboss {
 		case "recovery":
 			err = (&twofactor.Recovery{Authboss: ab}).Setup()
 		case "expire":
+			if !second && !w.expireOn {
+				continue
+			}
 			err = expire.Setup(ab)
 		}
 		if err != nil {
@@ -667,7 +699,7 @@ func (w *World) buildHandler() http.Handler {
 	})
 	var h http.Handler = mux
 	h = authboss.ModuleListMiddleware(ab)(h)
-	if w.Cfg.hasSetup("expire") {
+	if w.expireOn {
 		h = expire.Middleware(ab)(h)
 	} else if w.Cfg.hasModule("remember") {
 		h = remember.Middleware(ab)(h)
@@ -720,55 +752,26 @@ func (w *World) serveProbe(rw http.ResponseWriter, r *http.Request) {
 	})
 	parts := strings.Split(strings.TrimPrefix(r.URL.Path, "/probe/"), "/")
 	// the application mounts each guarded route once, when it starts: the
-	// middleware values live as long as the server process (restart() drops them)
-	mounted := func(key string, build func() func(http.Handler) http.Handler) http.Handler {
-		w.mwMu.Lock()
-		mw, ok := w.mwCache[key]
-		if !ok {
-			mw = build()
-			w.mwCache[key] = mw
+	// middleware values live as long as the server process (see mountProbes)
+	mounted := func(key string) http.Handler {
+		if mw, ok := w.mwCache[key]; ok {
+			return mw(final)
 		}
-		w.mwMu.Unlock()
-		return mw(final)
+		return http.NotFoundHandler()
 	}
 	switch parts[0] {
 	case "open":
 		final.ServeHTTP(rw, r)
-	case "mw":
+	case "mw", "legacy":
 		if len(parts) < 4 {
 			http.NotFound(rw, r)
 			return
 		}
-		reqs, _ := strconv.Atoi(parts[1])
-		mode, _ := strconv.Atoi(parts[2])
-		mp := parts[3] == "1"
-		mounted(strings.Join(parts[:4], "/"), func() func(http.Handler) http.Handler {
-			return authboss.MountedMiddleware2(ab, mp, authboss.MWRequirements(reqs), authboss.MWRespondOnFailure(mode))
-		}).ServeHTTP(rw, r)
-	case "legacy":
-		if len(parts) < 4 {
-			http.NotFound(rw, r)
-			return
-		}
-		reqs, _ := strconv.Atoi(parts[1])
-		redirect := parts[2] == "1"
-		full, twofa := reqs&1 != 0, reqs&2 != 0
-		mounted(strings.Join(parts[:4], "/"), func() func(http.Handler) http.Handler {
-			if parts[3] == "1" {
-				return authboss.MountedMiddleware(ab, true, redirect, full, twofa)
-			}
-			return authboss.Middleware(ab, redirect, full, twofa)
-		}).ServeHTTP(rw, r)
+		mounted(strings.Join(parts[:4], "/")).ServeHTTP(rw, r)
 	case "lock":
-		mounted("lock", func() func(http.Handler) http.Handler {
-			outer, inner := authboss.Middleware2(ab, authboss.RequireNone, authboss.RespondNotFound), lock.Middleware(ab)
-			return func(h http.Handler) http.Handler { return outer(inner(h)) }
-		}).ServeHTTP(rw, r)
+		mounted("lock").ServeHTTP(rw, r)
 	case "confirm":
-		mounted("confirm", func() func(http.Handler) http.Handler {
-			outer, inner := authboss.Middleware2(ab, authboss.RequireNone, authboss.RespondNotFound), confirm.Middleware(ab)
-			return func(h http.Handler) http.Handler { return outer(inner(h)) }
-		}).ServeHTTP(rw, r)
+		mounted("confirm").ServeHTTP(rw, r)
 	default:
 		http.NotFound(rw, r)
 	}
